@@ -19,7 +19,8 @@ EXTENDS Integers, Sequences, FiniteSets
 CONSTANTS MinDelay,     \* MIN_DELAY_BETWEEN_RAS   (trace: 3000 ms)
           MaxRADelay,   \* MAX_RA_DELAY_TIME       (trace: 500 ms)
           BackoffUnit,  \* receive timeout back-off unit (trace: 50 ms)
-          Retries       \* consecutive receive timeouts that end the session (5)
+          Retries,      \* consecutive receive timeouts that end the session (5)
+          InitCap       \* MAX_INITIAL_RTR_ADVERT_INTERVAL (trace: 16000 ms): earliest second periodic request
 
 ALLNODES == "allnodes"
 UNSPEC   == "unspec"
@@ -28,8 +29,12 @@ CounterNames == {"u", "m", "txerr", "inv", "rx"}
 ZeroCnt == [c \in CounterNames |-> 0]
 
 \* Initial monitor state for one scenario.
-ReqInit(unicast, cfglife, monitorMode) ==
+ReqInit(unicast, cfglife, monitorMode, strictMc) ==
   [ unicast  |-> unicast,      \* unicast_only configured
+    strictMc |-> strictMc,     \* MinRtrAdvInterval exceeds the scenario horizon: after the loop's first request no
+                               \* periodic trigger can occur, so every multicast RA must be explained by an RS from ::
+    dialT    |-> 0,            \* time of the last successful (re)initialisation
+    credit   |-> 0,            \* periodic requests not yet served (1 after each (re)initialisation)
     cfglife  |-> cfglife,      \* configured default lifetime (s)
     monmode  |-> monitorMode,  \* TRUE for a Monitor task (no RA may ever be sent)
     k        |-> 0,            \* current connection id (0 = none open)
@@ -74,7 +79,7 @@ Deadlines(m, T) ==
 OnDial(m, e) ==
   IF e.res # "ok" THEN m
   ELSE LET m1 == IF Up(m) THEN Flag(m, "c11-dial-while-connection-open") ELSE m IN
-       [m1 EXCEPT !.k = e.k, !.nW = 0, !.lastMc = -1, !.owedM = {}, !.owedU = <<>>, !.pend = <<>>,
+       [m1 EXCEPT !.k = e.k, !.nW = 0, !.credit = 1, !.dialT = e.t, !.lastMc = -1, !.owedM = {}, !.owedU = <<>>, !.pend = <<>>,
                   !.faultAt = -1, !.reading = FALSE, !.nTO = 0, !.resumeAt = -1]
 
 OnDone(m, e) ==
@@ -159,6 +164,8 @@ OnWCall(m, e) ==
             ELSE IF sure /\ m.nOpen > 0 THEN Flag(m, "c08-final-ra-overtakes-write-in-flight")
             ELSE IF mc /\ ~initial /\ ~finalCand /\ m.lastMc # -1 /\ e.t - m.lastMc < MinDelay
                  THEN Flag(m, "c06-multicast-spacing")
+            ELSE IF mc /\ ~initial /\ ~finalCand /\ m.strictMc /\ e.t - m.dialT < InitCap /\ m.owedM = {} /\ m.credit = 0
+                 THEN Flag(m, "c07-c09-multicast-ra-without-any-trigger")
             ELSE IF ~mc /\ oi = 0 THEN Flag(m, "c07-unsolicited-or-duplicate-unicast-ra")
             ELSE IF ~mc /\ e.t - m.owedU[oi].t >= MaxRADelay THEN Flag(m, "c07-unicast-ra-late")
             ELSE IF m.body # "" /\ e.body # m.body THEN Flag(m, "c04-c08-content-other-than-lifetime-changed")
@@ -166,6 +173,7 @@ OnWCall(m, e) ==
   IN [m1 EXCEPT !.nW = @ + 1, !.nOpen = @ + 1,
                 !.pend = IF used = 0 THEN @ ELSE DropAt(@, used),
                 !.lastMc = IF mc /\ ~finalCand THEN e.t ELSE @,
+                !.credit = IF mc /\ ~initial THEN 0 ELSE @,
                 !.owedM = IF mc THEN {} ELSE @,
                 !.owedU = IF ~mc /\ oi # 0 THEN DropAt(@, oi) ELSE @,
                 !.sureFinal = IF sure THEN @ + 1 ELSE @,
